@@ -121,6 +121,17 @@ def decide(t):
     return d
 
 
+def concretize_int(t, lo, hi):
+    """decide the value of an integer term with a small range (forks over the feasible values)"""
+    t = tm.lift(t)
+    if t.op == 'const':
+        return int(t.data)
+    for v in range(lo, hi + 1):
+        if decide(tm.eq(t, tm.const(v, INT))):
+            return v
+    raise StopPath()
+
+
 def nondet(label=''):
     """fork without a condition"""
     ctx = cur()
@@ -626,6 +637,12 @@ class _AssignedNames(ast.NodeVisitor):
         if isinstance(node.ctx, (ast.Store, ast.Del)):
             self._add(node.id)
 
+    def visit_Subscript(self, node):
+        # a[...] = v mutates the object bound to a: a counts as modified
+        if isinstance(node.ctx, ast.Store) and isinstance(node.value, ast.Name):
+            self._add(node.value.id)
+        self.generic_visit(node)
+
     def visit_FunctionDef(self, node):
         self._add(node.name)       # do not descend
 
@@ -907,10 +924,14 @@ class VC:
         return fn
 
     def length(self, it):
+        if hasattr(it, 'length'):
+            return it.length()
         from . import shapearr
         return shapearr.sym_len(it)
 
     def element(self, it, i):
+        if hasattr(it, 'element'):
+            return it.element(i)
         for x in it:
             return x
 
